@@ -119,6 +119,8 @@ def run(ctx):
                 ("lookup-hit", some_edges, "a key that was not found in the operator table"),
             ):
                 dom = any(edge_dominates(b, u, v, sbi) for u, v in edges)
+                if not dom and name == "single-key":
+                    dom = disp.len_interval_at(sbi) == (1, 1)
                 ctx.check(dom, "K2.guard-" + name, "Ok(Some) exit bb%d (%s)" % (sbi, cfg),
                           "an operation is recognised for " + msg + (" (no such guard edge exists in the dispatcher)" if not edges else ""),
                           where=b.where(sbi, ssi), nontrivial=True, fn=b.key, sample={"guard": name, "edges": edges, "exit": sbi})
